@@ -462,7 +462,8 @@ def run(ck: core.Check):
         "documents are generated type-directed from the export schema (every optional key absent / empty / present, "
         "all 23 action types incl. unknown extra keys on pass-through ones, 0..5 nodes of every node kind, categories shared by "
         "several cases, permuted category order, group references with attributes, campaigns with both event kinds, triggers "
-        "K/C/M/T in new and legacy form) plus every fixture JSON embedded in a full export; a case is non-trivial when the "
+        "K/C/M/T in new and legacy form, renamed objects: references to ONE flow uuid under its current and older names in "
+        "enter_flow actions / campaign events / triggers, one group uuid listed and referred to under two names) plus every fixture JSON embedded in a full export; a case is non-trivial when the "
         "document has at least one node, campaign or trigger; distinct = distinct documents (hash of canonical JSON)"
     )
     ck.assumptions = [
@@ -596,7 +597,8 @@ def run(ck: core.Check):
             "gen.opt.all_urns.absent", "gen.opt.all_urns.empty", "gen.opt.all_urns.present",
             "gen.opt.exclude_groups.absent", "gen.opt.exclude_groups.empty", "gen.opt.exclude_groups.present",
             "gen.opt.destination_uuid.absent", "gen.opt.destination_uuid.empty", "gen.opt.destination_uuid.present",
-            "gen.groupref.attr.present", "gen.router.switch.wait=timeout", "gen.router.switch.wait=plain", "gen.case.has_group"] + [
+            "gen.groupref.attr.present", "gen.flowref.older_name.action", "gen.flowref.older_name.event", "gen.flowref.older_name.trigger",
+            "gen.group.older_name_same_uuid", "gen.router.switch.wait=timeout", "gen.router.switch.wait=plain", "gen.case.has_group"] + [
         f"gen.trigger.{form}.{t}" for form in ("new", "legacy") for t in G.TRIGGER_TYPES] + [
         "gen.action." + t for t in list(G.PASS_THROUGH) + G.SPECIAL]
     missing = [s for s in need if not ck.strata.get(s)]
